@@ -97,9 +97,12 @@ Proof.
   destruct (es_es s =? 64); repeat split; reflexivity.
 Qed.
 
+Lemma elf_steps_good it : el_es it = 40 \/ el_es it = 64 -> elf_steps it = el_rem it.
+Proof. intros [E|E]; unfold elf_steps; rewrite E; reflexivity. Qed.
+
 (* next(): closed form by recursion on the remaining count; never a fault; preserves the invariant;
    the section it hands out is section_ok *)
-Lemma elf_next_inv p m tag_off L : forall fuel it, elf_inv m tag_off L it -> (N.to_nat (el_rem it) < fuel)%nat ->
+Lemma elf_next_inv p m tag_off L : forall fuel it, elf_inv m tag_off L it -> (N.to_nat (elf_steps it) < fuel)%nat ->
   match elf_next fuel p m it with
   | Val (Some s, it') => section_ok m tag_off L s /\ elf_inv m tag_off L it' /\ el_rem it' < el_rem it /\
                          (es_es s = 40 \/ es_es s = 64) /\ es_es s = el_es it /\
@@ -126,16 +129,16 @@ Proof.
     unfold elf_section_type_of, elf_typ, elf_field. rewrite (elf_get_ok m tag_off L s Hsok).
     unfold s at 1 2 3. cbn [es_es].
     destruct (N.eqb_spec (el_es it) 40) as [E40|N40]; [|destruct (N.eqb_spec (el_es it) 64) as [E64|N64]]; cbn [bind]; [| |exact I].
-    + destruct (is_unused _).
-      * specialize (IH it' Hinv' ltac:(unfold it'; cbn [el_rem]; lia)).
+    + rewrite (elf_steps_good it (or_introl E40)) in Hf. destruct (is_unused _).
+      * specialize (IH it' Hinv' ltac:(rewrite (elf_steps_good it' (or_introl E40)); unfold it'; cbn [el_rem]; lia)).
         destruct (elf_next fuel p m it') as [[[s2|] it2]| | |]; try exact IH.
         -- destruct IH as (A & B & C & D & E & k & K1 & K2 & K3). unfold it' in *. cbn [el_cur el_rem el_es] in *.
            split; [exact A|]. split; [exact B|]. split; [lia|]. split; [exact D|]. split; [exact E|].
            exists (k + 1). split; [lia|]. split; [rewrite K2; nia|lia].
       * split; [exact Hsok|]. split; [exact Hinv'|]. unfold it', s; cbn [el_rem es_es es_inner].
         split; [lia|]. split; [lia|]. split; [reflexivity|]. exists 0. split; [lia|]. split; lia.
-    + destruct (is_unused _).
-      * specialize (IH it' Hinv' ltac:(unfold it'; cbn [el_rem]; lia)).
+    + rewrite (elf_steps_good it (or_intror E64)) in Hf. destruct (is_unused _).
+      * specialize (IH it' Hinv' ltac:(rewrite (elf_steps_good it' (or_intror E64)); unfold it'; cbn [el_rem]; lia)).
         destruct (elf_next fuel p m it') as [[[s2|] it2]| | |]; try exact IH.
         -- destruct IH as (A & B & C & D & E & k & K1 & K2 & K3). unfold it' in *. cbn [el_cur el_rem el_es] in *.
            split; [exact A|]. split; [exact B|]. split; [lia|]. split; [exact D|]. split; [exact E|].
@@ -212,7 +215,7 @@ Proof.
         split; [reflexivity|]. split; [reflexivity|]. split; [unfold in_use; rewrite Eu; reflexivity|].
         split; [unfold it3 in Hinv3; rewrite He2, Hs2 in Hinv3; exact Hinv3|].
         split; [reflexivity|]. split; [reflexivity|]. lia. }
-  specialize (Hnext n (elf_fuel it) it Hinv eq_refl eq_refl Hn ltac:(unfold elf_fuel; lia)).
+  specialize (Hnext n (elf_fuel it) it Hinv eq_refl eq_refl Hn ltac:(unfold elf_fuel; rewrite (elf_steps_good it Hes); lia)).
   destruct (elf_next (elf_fuel it) p m it) as [[[s|] it3]| | |]; try contradiction.
   - destruct Hnext as (pre & Epre & Fpre & Fu & I3 & E3 & S3 & Lt).
     rewrite (IHn (N.to_nat (el_rem it3)) Lt fuel it3 I3) by (rewrite ?E3; try assumption; try reflexivity; lia).
